@@ -100,6 +100,30 @@ def oracle(ctx, line, res):
                     fails.append({"kind": "scale-comparison-wrong", "opname": op, "a": str(a), "b": str(b), "got": res, "want": exp})
             ctx.oracle_checks += 1
             return fails
+    if op in ("add", "sub") and a.unit.dimension is b.unit.dimension:
+        from .c12 import scale_of, si as kelvin_si, TO_K
+        sca, scb = scale_of(a.unit), scale_of(b.unit)
+        if sca is not None and scb is not None:
+            # sums and differences on temperature scales: replacing b by the equal quantity written in a's unit
+            # must not change the result, i.e. a +- b is a.magnitude +- (b expressed in a's unit), offsets and
+            # prefixes included (what an absolute sum MEANS is not judged)
+            ctx.oracle_checks += 1
+            if not res.startswith("ok\tq"):
+                if res[4:] not in ("ConversionNotFound", "TypeError"):
+                    fails.append({"kind": "conversion-raises", "error": res[4:], "class": None, "opname": op,
+                                  "from": str(b.unit), "to": str(a.unit)})
+                return fails
+            deg, zero = TO_K[sca[0]]
+            pv = F(sca[1].base) ** sca[1].exponent if sca[1].base else F(1)
+            b_in_a = (kelvin_si(ctx, b) - zero) / deg / pv
+            want = F(a.magnitude) + b_in_a if op == "add" else F(a.magnitude) - b_in_a
+            r = ctx.sess.qs[-1]
+            if r.unit is not a.unit:
+                fails.append({"kind": "not-left-unit", "opname": op})
+            elif abs(F(r.magnitude) - want) > F(1, 10**9) * (abs(want) + abs(b_in_a) + F(1000) / pv):
+                fails.append({"kind": "scale-sum-wrong", "opname": op, "a": str(a), "b": str(b),
+                              "got": float(F(r.magnitude)), "want": float(want)})
+            return fails
     sa, sb = si(ctx, a), si(ctx, b)
     if sa is None or sb is None:
         return []
@@ -268,8 +292,8 @@ def generate(ctx, n_ops):
             pb = ctx.si_prefix() if rng.random() < 0.4 else None
             temps = None
             if rng.random() < 0.15:
-                # the same temperature written on two scales (comparisons only: == and < are decided by the
-                # kelvin value; sums on offset scales are not part of the property)
+                # temperatures on two scales (any prefixes): == and < are decided by the kelvin value; a +- b is
+                # a.magnitude +- (b written in a's unit) - invariance under re-expressing b
                 names = [n for n in ("kelvin", "celsius", "Rankine", "fahrenheit") if n in Unit._by_name]
                 if len(names) >= 2:
                     n1, n2 = rng.sample(names, 2)
@@ -282,7 +306,8 @@ def generate(ctx, n_ops):
                             n1, n2 = n2, n1
                     temps = (Unit._by_name[n1], Unit._by_name[n2])
                     src, dst = [(temps[0], 1)], [(temps[1], 1)]
-                    pa = pb = None
+                    pa = ctx.si_prefix() if rng.random() < 0.25 else None
+                    pb = ctx.si_prefix() if rng.random() < 0.25 else None
             if temps is None and info and rng.random() < 0.08:
                 # mixed SI / IEC prefixes on information units
                 src = [(rng.choice(info), 1)]
@@ -303,7 +328,7 @@ def generate(ctx, n_ops):
                 qb = yield from qnew(ctx.magnitude(), b)
             if qa is None or qb is None:
                 continue
-            for op in (rng.sample(["eq", "lt", "ge", "le", "gt"], 3) if temps else rng.sample(["add", "sub", "eq", "lt", "ge", "le", "gt"], 3)):
+            for op in (rng.sample(["eq", "lt", "ge", "le", "gt", "add", "sub", "sub"], 4) if temps else rng.sample(["add", "sub", "eq", "lt", "ge", "le", "gt"], 3)):
                 res = yield "X\t%s\tq%d\tq%d" % (op, qa, qb)
                 emitted += 1
                 if res.startswith("ok\tq"):
